@@ -159,6 +159,8 @@ OrderIds(s)     == 1..MaxOrders
 OptExp(s)       == {NoTime} \cup {SomeTime(t) : t \in ExpTicks}
 
 Refs == IF MaxList = 1 /\ Cardinality(Users) < 3 THEN {"r1"} ELSE {"r1", "r2"}
+\* batch end date = start date + delta; 0 (start = end) is accepted by MsgCreateBatch
+EndDeltas == IF MaxList = 1 /\ Cardinality(Users) >= 3 THEN {0, 1} ELSE {1}
 OfferedFees == {NoCoin} \cup {SomeCoin(d, n) : d \in FeeDenomsOffered, n \in CoinAmts}
 
 Issuance == {[to |-> u, t |-> t, r |-> r] : u \in Users, t \in Amts, r \in Amts}
@@ -177,9 +179,9 @@ Msgs(s, T) ==
     [] T = "CreateBatch" ->
          IF Cardinality(s.batches) >= MaxBatches THEN {} ELSE
          {[type |-> T, issuer |-> a, project_id |-> p, issuance |-> is, meta |-> "m0",
-           start |-> st0, end |-> st0 + 1, open |-> o, origin |-> NoOrigin]
+           start |-> st0, end |-> st0 + dl, open |-> o, origin |-> NoOrigin]
             : a \in Users, p \in ProjectIds(s), is \in Seqs12(Issuance),
-              st0 \in StartTicks, o \in BOOLEAN}
+              st0 \in StartTicks, dl \in EndDeltas, o \in BOOLEAN}
     [] T = "MintBatchCredits" ->
          {[type |-> T, issuer |-> a, batch_denom |-> d, issuance |-> is,
            origin |-> [set |-> TRUE, id |-> x, src |-> src, contract |-> ""]]
